@@ -19,6 +19,7 @@ type MCall struct {
 	Package      string
 	NodeName     string
 	FunctionName string
+	Type         string // how the front-end classified the call site (lambda, field, self, chain ...): no graph clause depends on it
 }
 
 type MFunc struct {
@@ -114,7 +115,7 @@ func genCollisionModel(t *tape.Tape) []MClass {
 			if model[ci].Package == f[0] && model[ci].NodeName == f[1] {
 				for fi := range model[ci].Functions {
 					if model[ci].Functions[fi].Name == f[2] {
-						model[ci].Functions[fi].FunctionCalls = append(model[ci].Functions[fi].FunctionCalls, MCall{c[0], c[1], c[2]})
+						model[ci].Functions[fi].FunctionCalls = append(model[ci].Functions[fi].FunctionCalls, MCall{Package: c[0], NodeName: c[1], FunctionName: c[2]})
 					}
 				}
 			}
@@ -138,11 +139,11 @@ func genScaleModel(t *tape.Tape) []MClass {
 		model[i] = MClass{NodeName: fmt.Sprintf("K%04d", i), Package: "big", Type: "Class", Functions: []MFunc{{Name: "m0"}}}
 	}
 	for i := 0; i+1 < n; i++ {
-		model[i].Functions[0].FunctionCalls = append(model[i].Functions[0].FunctionCalls, MCall{"big", fmt.Sprintf("K%04d", i+1), "m0"})
+		model[i].Functions[0].FunctionCalls = append(model[i].Functions[0].FunctionCalls, MCall{Package: "big", NodeName: fmt.Sprintf("K%04d", i+1), FunctionName: "m0"})
 	}
 	for k := 0; k < 6; k++ {
 		a, b := t.Pick(n), t.Pick(n)
-		model[a].Functions[0].FunctionCalls = append(model[a].Functions[0].FunctionCalls, MCall{"big", fmt.Sprintf("K%04d", b), "m0"})
+		model[a].Functions[0].FunctionCalls = append(model[a].Functions[0].FunctionCalls, MCall{Package: "big", NodeName: fmt.Sprintf("K%04d", b), FunctionName: "m0"})
 	}
 	return model
 }
@@ -198,7 +199,7 @@ func genModel(t *tape.Tape, thorough bool) []MClass {
 			}
 			if t.Bool(1, 25) {
 				// names that are keywords elsewhere are ordinary method names in a model
-				name = []string{"new", "super", "this", "default", "init", "x", "r", "com", "p", "a->b", "m1", "m10", "a\\b", "t\tab", "nb\u00a0sp"}[t.Pick(15)] // keywords elsewhere; or equal to a package segment
+				name = []string{"new", "super", "this", "default", "init", "x", "r", "com", "p", "a->b", "m1", "m10", "a\\b", "t\tab", "nb\u00a0sp", "pct%s", "100%d"}[t.Pick(17)] // keywords elsewhere; or equal to a package segment
 				for _, f := range c.Functions {
 					if f.Name == name {
 						name = fmt.Sprintf("m%d", j)
@@ -220,7 +221,7 @@ func genModel(t *tape.Tape, thorough bool) []MClass {
 		}
 		if t.Bool(1, 20) {
 			// two methods whose names differ only in letter case, one delegating to the other
-			c.Functions = append(c.Functions, MFunc{Name: "getUrl"}, MFunc{Name: "getURL", FunctionCalls: []MCall{{c.Package, c.NodeName, "getUrl"}}})
+			c.Functions = append(c.Functions, MFunc{Name: "getUrl"}, MFunc{Name: "getURL", FunctionCalls: []MCall{{Package: c.Package, NodeName: c.NodeName, FunctionName: "getUrl"}}})
 			decls = append(decls, decl{c.Package, c.NodeName, "getUrl"}, decl{c.Package, c.NodeName, "getURL"})
 		}
 		model = append(model, c)
@@ -254,7 +255,7 @@ func genModel(t *tape.Tape, thorough bool) []MClass {
 			if shape == 2 && idx < len(decls) {
 				// chain edge to the next declared method: deep call trees that exceed the budget
 				d := decls[idx]
-				model[ci].Functions[fi].FunctionCalls = append(model[ci].Functions[fi].FunctionCalls, MCall{d.pkg, d.cls, d.fn})
+				model[ci].Functions[fi].FunctionCalls = append(model[ci].Functions[fi].FunctionCalls, MCall{Package: d.pkg, NodeName: d.cls, FunctionName: d.fn})
 				if n > 1 {
 					n = 1
 				}
@@ -269,24 +270,25 @@ func genModel(t *tape.Tape, thorough bool) []MClass {
 					} else {
 						d = decls[t.Pick(len(decls))]
 					}
-					call = MCall{d.pkg, d.cls, d.fn}
+					call = MCall{Package: d.pkg, NodeName: d.cls, FunctionName: d.fn}
 				case kind == 8: // callee declared nowhere
-					call = MCall{"ext.lib", "Lib", fmt.Sprintf("x%d", t.Pick(2))}
+					call = MCall{Package: "ext.lib", NodeName: "Lib", FunctionName: fmt.Sprintf("x%d", t.Pick(2))}
 				case kind == 9: // call without receiver type: must never become an edge
-					call = MCall{model[ci].Package, "", "helper"}
+					call = MCall{Package: model[ci].Package, NodeName: "", FunctionName: "helper"}
 				case kind == 10: // object creation (no function name)
 					d := decls[t.Pick(len(decls))]
-					call = MCall{d.pkg, d.cls, ""}
+					call = MCall{Package: d.pkg, NodeName: d.cls, FunctionName: ""}
 				case kind == 11: // a method of the name pools that this model may not declare (another model may)
-					call = MCall{pkgs[t.Pick(len(pkgs))], foreignCls[t.Pick(len(foreignCls))], fmt.Sprintf("m%d", t.Pick(4))}
+					call = MCall{Package: pkgs[t.Pick(len(pkgs))], NodeName: foreignCls[t.Pick(len(foreignCls))], FunctionName: fmt.Sprintf("m%d", t.Pick(4))}
 				default: // same target again: parallel edge / repeated call site
 					if len(model[ci].Functions[fi].FunctionCalls) > 0 {
 						call = model[ci].Functions[fi].FunctionCalls[0]
 					} else {
 						d := decls[t.Pick(len(decls))]
-						call = MCall{d.pkg, d.cls, d.fn}
+						call = MCall{Package: d.pkg, NodeName: d.cls, FunctionName: d.fn}
 					}
 				}
+				call.Type = []string{"", "", "lambda", "field", "self", "chain", "super", "same package", "CreatorClass"}[t.Pick(9)]
 				model[ci].Functions[fi].FunctionCalls = append(model[ci].Functions[fi].FunctionCalls, call)
 			}
 		}
@@ -355,7 +357,7 @@ func genCGScenario(t *tape.Tape, tier string) *CGScenario {
 				verbs := []string{"GET", "POST", "PUT", "DELETE"}
 				for a := 0; a < na; a++ {
 					c := model[t.Pick(len(model))]
-					api := RestAPI{Uri: fmt.Sprintf("/u%d", t.Pick(3)), HttpMethod: verbs[t.Pick(4)], PackageName: c.Package, ClassName: c.NodeName}
+					api := RestAPI{Uri: []string{"/u0", "/u1", "/u2", "/a%20b"}[t.Pick(4)], HttpMethod: verbs[t.Pick(4)], PackageName: c.Package, ClassName: c.NodeName}
 					if len(c.Functions) > 0 && !t.Bool(1, 8) {
 						api.MethodName = c.Functions[t.Pick(len(c.Functions))].Name
 					} else {
